@@ -31,9 +31,11 @@ def tkey(x):
 UNIVERSES = {
     "selfkeyed": dict(items=["a", "b", "c"], key=None, keyf=lambda x: x, typed=None),
     "explicit": dict(items=[(k, p) for k in "abc" for p in (0, 1)], key=tkey, keyf=tkey, typed=None),
-    "spec": dict(items=[Item(k, p=p) for k in "abc" for p in (0, 1)], key=None, keyf=lambda x: x.k, typed=None),
+    "spec": dict(items=[Item(k, p=p) for k in "abc" for p in (0, 1)], key=None, keyf=lambda x: x.k if isinstance(x, Item) else x, typed=None),
     "unhashable": dict(items=[[k, p] for k in "abc" for p in (0, 1)], key=tkey, keyf=tkey, typed=None),
     "typed": dict(items=["a", "b", "c", 7], key=None, keyf=lambda x: x, typed=(str, str)),
+    # falsy items and a falsy key: (), [] and "" all have key 0 and are pairwise unequal
+    "falsy": dict(items=[(), [], "", (1,), [1]], key=len, keyf=len, typed=None),
 }
 
 
@@ -69,8 +71,8 @@ def m_add(u, m, x, eie, derived=False):
     return m
 
 
-def m_resolve(u, m, v, eie):
-    """item-or-key resolution -> canonical key or None"""
+def m_resolve(u, m, v, eie, strict=False):
+    """item-or-key resolution -> canonical key or None (strict: an exception of the key function propagates)"""
     kf = UNIVERSES[u]["keyf"]
     try:
         hash(v)
@@ -80,7 +82,9 @@ def m_resolve(u, m, v, eie):
         pass
     try:
         k = kf(v)
-    except Exception:
+    except Exception as e:
+        if strict:
+            raise ModelError((type(e),))
         return None
     if canon(k) in m and (not eie or m[canon(k)][1] == v):
         return canon(k)
@@ -183,7 +187,7 @@ def run_case(u, state, eie, op, arg):
             exp = m_resolve(u, m, arg, eie) is not None
         elif op == "getitem":
             # lookup: as a key first, then as an item by its key (no equivalence test on lookup)
-            r = m_resolve(u, m, arg, False)
+            r = m_resolve(u, m, arg, False, strict=True)
             if r is None:
                 raise ModelError(KeyError)
             exp = repr(m[r][1])
